@@ -13,7 +13,8 @@
 (* (stands for namespace attributes, cycler position, top-level set        *)
 (* variables), the loop stack (loop.index), the autoescape stack of its    *)
 (* evaluation context, the module bound by its last import, its call       *)
-(* stack (include / module body).  Tasks may render the very same template *)
+(* stack (include / module body / macro body of an imported module, which  *)
+(* may await).  Tasks may render the very same template                    *)
 (* object (same name, same Template instance) with different variables.    *)
 (*                                                                         *)
 (* State the engine really shares between tasks (operational layer):       *)
@@ -55,10 +56,10 @@ NoMod == [name |-> "", me |-> "", tg |-> "", text |-> <<>>, complete |-> FALSE, 
 
 Frame(kind, code) ==
     [kind |-> kind, code |-> code, pc |-> 1, loops |-> <<>>, mod |-> "", obj |-> 0, me |-> "", tg |-> "",
-     cache |-> FALSE, buf |-> <<>>, bind |-> TRUE, autos |-> <<>>]
+     cache |-> FALSE, buf |-> <<>>, bind |-> TRUE, autos |-> <<>>, auto0 |-> FALSE]
 
 InitTask(sc, t) ==
-    [stack |-> <<Frame("main", sc.tasks[t].prog)>>, ctr |-> 0, alias |-> NoMod,
+    [stack |-> <<[Frame("main", sc.tasks[t].prog) EXCEPT !.auto0 = sc.tasks[t].html]>>, ctr |-> 0, alias |-> NoMod,
      out |-> <<>>, done |-> FALSE, started |-> FALSE]
 
 InitShared == [tcache |-> <<>>, next |-> 1, mcache |-> [o \in 1..MaxObj |-> NoMod]]
@@ -89,8 +90,10 @@ Emit(st, s) == IF Top(st).kind = "modbody"
                THEN SetTop(st, [Top(st) EXCEPT !.buf = Append(@, s)])
                ELSE [st EXCEPT !.out = Append(st.out, s)]
 EmitAll(st, ss) == [st EXCEPT !.out = st.out \o ss]
-\* every template activation (main, include) has its own evaluation context
-Auto(st) == LET a == Top(st).autos IN IF a = <<>> THEN FALSE ELSE a[Len(a)]
+\* every template activation (main, include) has its own evaluation context; its initial
+\* autoescape mode comes from the template (task.html: the task's own template autoescapes,
+\* e.g. page.html vs mail.txt under select_autoescape; shared templates do not)
+Auto(st) == LET a == Top(st).autos IN IF a = <<>> THEN Top(st).auto0 ELSE a[Len(a)]
 
 MacroText(m) == IF m.complete THEN "[" \o m.name \o m.tg \o m.me \o "]" ELSE "!undefined"
 
@@ -151,6 +154,11 @@ Run(sc, task, st, s) ==
                THEN Run(sc, task, [Adv(st) EXCEPT !.alias = cached], g.s)
                ELSE Run(sc, task, Push(Adv(st), body), s3)
       [] o.op = "Call" -> Run(sc, task, Emit(Adv(st), MacroText(st.alias)), s)
+      [] o.op = "CallG" ->  \* {{ m.gmac() }}: a macro of the bound module whose body awaits.  Its text is
+                            \* markup-safe for an autoescaping caller and plain otherwise: the same characters
+            IF st.alias.complete
+            THEN Run(sc, task, Push(Adv(st), Frame("mac", sc.macs[st.alias.name])), s)
+            ELSE Run(sc, task, Emit(Adv(st), "!undefined"), s)
       [] o.op = "Str" -> Run(sc, task, EmitAll(Adv(st), st.alias.text), s)    \* {{ m }}: the module's body
       [] o.op = "IncN" ->  \* include without context: the (always cacheable) default module's body
             LET g == GetTemplate(s, o.m, sc.cap)
